@@ -31,6 +31,10 @@ M = [
      "        self.electronbalance[idx2] += -balance\n        self.electronbalance[idx2] += -balance\n        reactionquery.transformations.append(BondForm(idx1, idx2, bondtype))"),
     ('m15_radical_set_not_verified', RQ, "        if self.oldradical is not None and\\\n                atom.GetNumRadicalElectrons() != self.oldradical:", "        if self.oldradical is not None and False and\\\n                atom.GetNumRadicalElectrons() != self.oldradical:"),
     ('m16_break_type_check_removed_in_reader', RD, "        elif bond.GetBondType() != bondtype:\n            raise RINGReaderError(\"BondBreak: Bond mismatch between two\",", "        elif False:\n            raise RINGReaderError(\"BondBreak: Bond mismatch between two\","),
+    ('m17_ladder_error_class', RQ, "            raise ReactionQueryError('BondDecrease: Decreasing bond order',\n                                     'of aromatic bond is not supported')",
+     "            raise ValueError('BondDecrease: Decreasing bond order',\n                                     'of aromatic bond is not supported')"),
+    ('m18_matches_processed_in_reverse', RQ, "        for matches in self.combined_mol_match_index:\n            products = self.combined_mol.__copy__()",
+     "        for matches in reversed(self.combined_mol_match_index):\n            products = self.combined_mol.__copy__()"),
 ]
 
 
